@@ -1209,6 +1209,9 @@ class RouteBuilderValidator(Validator[list[Any]]):
         # Parse prefix if present (for INET-family routes)
         if self.schema.prefix_parser:
             ipmask = self.schema.prefix_parser(tokeniser)
+            if self.afi is not None and ipmask.afi != self.afi:
+                # `ipv4 unicast 2001:db8::/32` was taken as 32.1.13.184/32 (the first octets of the other family)
+                raise ValueError(f'the prefix {ipmask} is not an {self.afi} prefix')
             settings.cidr = CIDR.create_cidr(ipmask.pack_ip(), ipmask.mask)
             settings.afi = self.afi
             settings.safi = self.safi
